@@ -83,7 +83,7 @@ Definition view_closes (v : view) : Z := match v with VPlain _ => 1 end.
 (* Seek(off, SeekStart) followed by reading until n bytes or end of data *)
 Definition view_read (w : world) (v : view) (off n : Z) : res bytes :=
   match v with
-  | VPlain h => if off <? 0 then Err EINVAL else h_read_at w h off n
+  | VPlain h => if (off <? 0) || (fs_max_offset <? off) then Err EINVAL else h_read_at w h off n    (* lseek refuses both *)
   end.
 
 (* pkg/fs.FS.OpenFile for reading (flags = O_RDONLY) *)
